@@ -820,6 +820,13 @@ int main(int argc, char** argv)
         parse("obj-d-1x21.2x7.3x7.1x8.2x6;lw,pf=1,beg,erc,rel;lr,beg,rel;lr,beg,der,nxt,rel"),
         parse("int-a-1x24.2x7.3x7.1x7.2x6;lw,pf=1,beg,erc,rel;lr,beg,rel;lr,beg,der,nxt,rel"),
         parse("obj-a-1x30.2x7.3x8.1x8.2x6;lw,pb=1,pb=2,beg,nxt,erc,rel;lr,beg,rel;lr,beg,nxt,der,nxt,der,rel"),
+        // a reader registers before the writer has done anything (so nothing but the links it follows orders it after
+        // the writer) and stops just before it loads m_head; the writer builds the list, appends and erases; the reader
+        // then reaches a node only through the link that erase spliced in (predecessor's next / m_head): the splice
+        // stores themselves must publish that node
+        parse("obj-a-2x6.1x90;lw,pb=1,pb=2,rel,lw,pb=3,eri=1,rel;lr,beg,nxt,der,nxt,rel"),
+        parse("obj-a-2x6.1x90;lw,pb=1,pb=2,rel,lw,eri=0,rel;lr,beg,der,nxt,rel"),
+        parse("int-a-2x6.1x90;lw,pf=2,pf=1,rel,lw,pb=3,eri=1,rel;lr,beg,nxt,der,nxt,rel"),
     };
     return client_main(argc, argv, directed, gen, exec);
 }
